@@ -1,7 +1,10 @@
-(* C05 - import closure: once each, cycles end, schedule independent. Statements only; proofs by `exact`. *)
-From Coq Require Import List NArith Arith Bool.
+(* C05 - import closure: once each, cycles end, schedule independent. Statements only; proofs by `exact`.
+   Model: Imports/Collect.v (collectSpecs + flattenSpecs as a transition system over arbitrary schedules),
+   Imports/Index.v (fileNameToIndex), instantiated with the rule table regenerated from the current source. *)
+From Coq Require Import String List NArith Arith Bool.
 Import ListNotations.
-Require Import Verif.Imports.Rules Verif.Imports.Collect Verif.Imports.CollectProps Verif.Imports.Current
+Require Import Verif.Imports.Rules Verif.Imports.Collect Verif.Imports.CollectProps Verif.Imports.FlattenProps
+               Verif.Imports.TermProps Verif.Imports.Index Verif.Imports.IndexProps Verif.Imports.Current
                Verif.Gen.ImportRules.
 
 (* the source still has the shape the model was transliterated from (regenerated table) *)
@@ -9,22 +12,83 @@ Theorem C05_rules_current : current_rules = expected_rules.
 Proof. exact rules_current. Qed.
 Print Assumptions C05_rules_current.
 
-Theorem C05_closure_unlimited : forall g root sched, let s := run current_rules g 0 root sched in
-  quiescent s = true ->
-  forall f, (reach g root f <-> exists e, lookup f (claimed s) = Some e /\ eimports e = Some (g f)).
-Proof. exact closure_unlimited_current. Qed.
-Print Assumptions C05_closure_unlimited.
+(* cycles end: every long enough schedule on a finite graph ends with no goroutine left *)
+Theorem C05_collect_terminates : forall g root maxd univ sched,
+  In root univ -> (forall f k, In f univ -> In k (g f) -> In k univ) ->
+  step_bound g univ <= length sched -> quiescent (run current_rules g maxd root sched) = true.
+Proof. exact collect_terminates_current. Qed.
+Print Assumptions C05_collect_terminates.
 
+(* each file is claimed and read once, whatever the schedule and the limit *)
 Theorem C05_claim_once : forall g root maxd sched, let s := run current_rules g maxd root sched in
   quiescent s = true ->
   NoDup (reads s) /\ forall f, In f (reads s) <-> lookup f (claimed s) <> None.
 Proof. exact claim_once_current. Qed.
 Print Assumptions C05_claim_once.
 
+(* no limit: the retrieved map is exactly the reachable files with their own import lists *)
+Theorem C05_closure_unlimited : forall g root sched, let s := run current_rules g 0 root sched in
+  quiescent s = true ->
+  forall f, (reach g root f <-> exists e, lookup f (claimed s) = Some e /\ eimports e = Some (g f)).
+Proof. exact closure_unlimited_current. Qed.
+Print Assumptions C05_closure_unlimited.
+
+(* no limit: the processed-file order lists exactly the reachable files, once each, and is THE depth-first
+   preorder of the import graph in textual order - a function of the text alone *)
+Theorem C05_closure_unlimited_result : forall g root sched,
+  quiescent (run current_rules g 0 root sched) = true ->
+  exists l, final_cur g root 0 sched = Some l /\ NoDup l /\ (forall f, In f l <-> reach g root f) /\
+    (exists fuel, dfs fuel g (fun _ => true) [] root = Some l) /\
+    (forall fuel l', dfs fuel g (fun _ => true) [] root = Some l' -> l' = l).
+Proof. exact closure_unlimited_result_current. Qed.
+Print Assumptions C05_closure_unlimited_result.
+
+Theorem C05_closure_unlimited_independent : forall g root s1 s2,
+  quiescent (run current_rules g 0 root s1) = true -> quiescent (run current_rules g 0 root s2) = true ->
+  final_cur g root 0 s1 = final_cur g root 0 s2.
+Proof. exact closure_unlimited_independent_current. Qed.
+Print Assumptions C05_closure_unlimited_independent.
+
+(* with a limit the full statement is FALSE of the code (and of the faithful model) ... *)
 Theorem C05_closure_depth_refuted :
   exists g maxd root s1 s2,
-    fst (result expected_rules g maxd root s1) = true /\ fst (result expected_rules g maxd root s2) = true /\
-    snd (result expected_rules g maxd root s1) = Some [0;1;4;5;2;3]%N /\
-    snd (result expected_rules g maxd root s2) = Some [0;1;4;2;3]%N.
-Proof. exact closure_depth_refuted. Qed.
+    quiescent (run current_rules g maxd root s1) = true /\ quiescent (run current_rules g maxd root s2) = true /\
+    final_cur g root maxd s1 = Some [0;1;4;5;2;3]%N /\
+    final_cur g root maxd s2 = Some [0;1;4;2;3]%N.
+Proof. exact closure_depth_refuted_current. Qed.
 Print Assumptions C05_closure_depth_refuted.
+
+(* ... what does hold for every graph and schedule ... *)
+Theorem C05_closure_depth_partial : forall g root maxd sched,
+  quiescent (run current_rules g maxd root sched) = true -> 0 < maxd ->
+  exists l, final_cur g root maxd sched = Some l /\ NoDup l /\
+    (forall f, In f l -> nearer g root maxd f) /\
+    (forall f d, walk g root f d -> d < maxd -> (forall d', walk g root f d' -> d' = d) -> In f l) /\
+    (forall f k, In f l -> In k (g f) -> got_cur g root maxd sched k -> In k l).
+Proof. exact closure_depth_partial_current. Qed.
+Print Assumptions C05_closure_depth_partial.
+
+(* ... and the full statement when every file has one depth (trees, layered DAGs) *)
+Theorem C05_closure_depth_unique : forall g root maxd sched,
+  quiescent (run current_rules g maxd root sched) = true -> 0 < maxd ->
+  (forall f d d', walk g root f d -> walk g root f d' -> d = d') ->
+  exists l, final_cur g root maxd sched = Some l /\ NoDup l /\ forall f, In f l <-> nearer g root maxd f.
+Proof. exact closure_depth_unique_result_current. Qed.
+Print Assumptions C05_closure_depth_unique.
+
+Theorem C05_closure_depth_unique_independent : forall g root maxd s1 s2,
+  quiescent (run current_rules g maxd root s1) = true -> quiescent (run current_rules g maxd root s2) = true -> 0 < maxd ->
+  (forall f d d', walk g root f d -> walk g root f d' -> d = d') ->
+  final_cur g root maxd s1 = final_cur g root maxd s2.
+Proof. exact closure_depth_unique_independent_current. Qed.
+Print Assumptions C05_closure_depth_unique_independent.
+
+(* the canonical index identifies slash direction and version suffix, and nothing else *)
+Theorem C05_index_canonical :
+  (forall s s', slash_eq s s' -> index_of current_rules s = index_of current_rules s') /\
+  (forall name v, has at_sign name = false -> index_of current_rules (name ++ String at_sign v) = index_of current_rules name) /\
+  (forall s s', has backslash s = false -> has at_sign s = false -> has backslash s' = false -> has at_sign s' = false ->
+      index_of current_rules s = index_of current_rules s' -> s = s') /\
+  (forall s, index_of current_rules (index_of current_rules s) = index_of current_rules s).
+Proof. exact index_canonical_current. Qed.
+Print Assumptions C05_index_canonical.
